@@ -138,7 +138,7 @@ func init() {
 				if fi.Pkg != c.W {
 					continue
 				}
-				ast.Inspect(fi.Decl.Body, func(nd ast.Node) bool {
+				fi.inspect(fi.Decl.Body, func(nd ast.Node) bool {
 					switch n := nd.(type) {
 					case *ast.AssignStmt:
 						for i, l := range n.Lhs {
@@ -214,7 +214,7 @@ func init() {
 			if rp != nil {
 				e := newEmitter(c, rp)
 				found := false
-				ast.Inspect(rp.Decl.Body, func(nd ast.Node) bool {
+				rp.inspect(rp.Decl.Body, func(nd ast.Node) bool {
 					is, ok := nd.(*ast.IfStmt)
 					if !ok || is.Init == nil {
 						return true
@@ -232,7 +232,7 @@ func init() {
 				r.Check(found, "copied-local/rename-decision-present", rp.Decl.Pos(), "rename decision found")
 				// inNewNames scans every chosen name
 				okIn := false
-				ast.Inspect(rp.Decl.Body, func(nd ast.Node) bool {
+				rp.inspect(rp.Decl.Body, func(nd ast.Node) bool {
 					rs, ok := nd.(*ast.RangeStmt)
 					if !ok || rs.Value == nil {
 						return true
@@ -290,7 +290,7 @@ func init() {
 						r.Check(ok, "nameInInjector/field:"+f.Name(), ni.Decl.Pos(), "a candidate equal to %s collides", f.Name())
 					case "[]string":
 						ok := false
-						ast.Inspect(ni.Decl.Body, func(nd ast.Node) bool {
+						ni.inspect(ni.Decl.Body, func(nd ast.Node) bool {
 							rs, isR := nd.(*ast.RangeStmt)
 							if !isR || ni.selField(rs.X) != f || ni.varOf(rs.X.(*ast.SelectorExpr).X) != recv {
 								return true
@@ -324,7 +324,7 @@ func init() {
 				}
 				for _, fld := range []string{"imports", "values"} {
 					ok := false
-					ast.Inspect(nf.Decl.Body, func(nd ast.Node) bool {
+					nf.inspect(nf.Decl.Body, func(nd ast.Node) bool {
 						rs, isR := nd.(*ast.RangeStmt)
 						if !isR {
 							return true
